@@ -110,3 +110,390 @@ class C04(E2ECheck):
         if R.trace.delivered:
             cls.append('fault-delivered')
         return cls, nt
+
+
+ALL_FAULT_SITES = ['s3.' + o for o in gen.S3_OPS] + [
+    'src.read', 'fs.open', 'fs.write', 'fs.close', 'fs.rename', 'fs.read',
+    'dst.write', 'cb.on_queued', 'cb.on_progress']
+
+
+def boundary_size(R, r):
+    cfg = R.case['cfg']
+    n = r['spec'].get('size', 0)
+    t, c = cfg['multipart_threshold'], cfg['multipart_chunksize']
+    return n in (0, t - 1, t, t + 1) or (c and (n % c in (0, 1, c - 1)))
+
+
+class C01(E2ECheck):
+    id = 'C01'
+    oracle = staticmethod(oracles.oracle_c01)
+    quick_examples = 32000
+    thorough_examples = 600000
+    profile = {
+        'types': ['upload', 'upload', 'copy'], 'ntransfers': (1, 3),
+        'subs': {'max': 1, 'size': True}, 'body_scripts': True,
+        'checksum': True, 'cancels': 1, 'ends': ['shutdown'],
+    }
+    rule = ('cases = 1-3 uploads/copies (path / seekable stream at an offset'
+            ' / non-seekable stream; boundary-biased sizes) x config x body '
+            'scripts (pre-flight and signing reads, block sizes, client-level'
+            ' rewinds, aws-chunked wrapper) x schedule; oracle = round trip '
+            'through the fake service + CompleteMultipartUpload arguments; '
+            'non-trivial = a successful multipart transfer with >=2 parts, '
+            'or >=1 body rewind, or a non-path source, or a boundary size')
+
+    def classify(self, R):
+        cls = base_classes(R)
+        nt = False
+        rew = any(k == 's3.rewind' for (_, _, k, _) in R.trace.events)
+        for r in R.transfers:
+            if not (r['outcome'] or {}).get('ok'):
+                continue
+            m = oracles.mode_of(R, r)
+            ups = oracles.uploads_of(R, r)
+            nparts = max([len(getattr(u, 'final_parts', [])) for u in ups]
+                         or [0])
+            cls.append(f'{r["type"]}:{m}:parts={min(nparts, 4)}')
+            if nparts >= 2 or rew or r['spec'].get('src') in (
+                    'seek', 'nonseek') or boundary_size(R, r):
+                nt = True
+        if rew:
+            cls.append('rewind')
+        return cls, nt
+
+
+class C02(E2ECheck):
+    id = 'C02'
+    oracle = staticmethod(oracles.oracle_c02)
+    quick_examples = 32000
+    thorough_examples = 600000
+    profile = {
+        'types': ['download'], 'ntransfers': (1, 2),
+        'subs': {'max': 1, 'size': True}, 'stream_scripts': True,
+        'ends': ['shutdown'],
+    }
+    rule = ('cases = 1-2 TransferManager downloads (path absent/pre-existing,'
+            ' seekable stream, non-seekable stream, special file) x config x '
+            'per-attempt stream scripts (short reads, retryable fault after k'
+            ' bytes) x schedule; oracle = destination equals the object, '
+            'non-seekable writes sequential, GETs per range <= attempts; '
+            'non-trivial = success with >=1 mid-stream retryable fault, or '
+            'short reads, or >=2 ranged parts, or a streaming destination')
+
+    def classify(self, R):
+        cls = base_classes(R)
+        nt = False
+        for r in R.transfers:
+            ok = (r['outcome'] or {}).get('ok')
+            m = oracles.mode_of(R, r)
+            f = oracles.had_stream_fault(R, r)
+            cls.append(f'{r["spec"]["dst"]}:{m}:{"retry" if f else "clean"}:'
+                       f'{"ok" if ok else "fail"}')
+            if ok and (f or m == 'ranged' or r['spec']['dst'] in (
+                    'nonseek', 'special', 'seek')):
+                nt = True
+        return cls, nt
+
+
+class C03(E2ECheck):
+    id = 'C03'
+    oracle = staticmethod(oracles.oracle_c03)
+    quick_examples = 32000
+    thorough_examples = 600000
+    profile = {
+        'ntransfers': (1, 2), 'subs': {'max': 1, 'size': True},
+        'body_scripts': True, 'stream_scripts': True,
+        'stream_hard_faults': True,
+        'fault_sites': [s for s in ALL_FAULT_SITES
+                        if s != 's3.abort_multipart_upload']
+        + ['stream.read'],
+        'fault_excs': ['injected', 'injected', 'oserror', 'retryable:1'],
+        'min_faults': 1, 'max_faults': 2, 'cancels': 1,
+        'ends': ['shutdown'],
+    }
+    rule = ('cases = 1-2 transfers of any type/mode with a fault plan of 1-2'
+            ' faults (k-th call of an S3 operation before/after its effect, '
+            'k-th source read, destination open/write/close/rename, '
+            'on_queued/on_progress callback, stream faults within and beyond'
+            ' the retry budget), optional cancel, schedule; oracle = '
+            'result() raises a delivered fault / RetriesExceededError over '
+            'one / the cancellation error; non-trivial = >=1 fault delivered'
+            ' and not absorbed by the retry budget')
+
+    def classify(self, R):
+        cls = base_classes(R)
+        nt = False
+        for (step, site, exc, info) in R.trace.delivered:
+            cls.append(f'fault:{site}:{info.get("when")}')
+            nt = True
+        return cls, nt
+
+
+class C05(E2ECheck):
+    id = 'C05'
+    oracle = staticmethod(oracles.oracle_c05)
+    quick_examples = 32000
+    thorough_examples = 500000
+    profile = {
+        'types': ['upload', 'upload', 'copy'], 'ntransfers': (1, 2),
+        'subs': {'max': 1, 'size': True}, 'body_scripts': True,
+        'max_thr': 12, 'max_chunk': 10,
+        'fault_sites': ['s3.create_multipart_upload', 's3.upload_part',
+                        's3.upload_part_copy',
+                        's3.complete_multipart_upload', 'src.read',
+                        'fs.read', 'cb.on_queued', 'cb.on_progress',
+                        's3.head_object', 's3.abort_multipart_upload'],
+        'max_faults': 2, 'cancels': 2,
+        'ends': ['shutdown', 'shutdown', 'shutdown_cancel', 'with_exc'],
+    }
+    rule = ('cases = multipart-biased uploads/copies x fault plan (create / '
+            'part / complete before or after effect, source read, callbacks)'
+            ' x cancels at drawn steps x schedule; oracle over the fake '
+            'service multipart table (per upload id: ordered log with begin/'
+            'end steps); non-trivial = an upload id was delivered and the '
+            'future failed or was cancelled')
+
+    def classify(self, R):
+        cls = base_classes(R)
+        nt = False
+        for up in R.svc.uploads.values():
+            if not up.delivered:
+                cls.append('upload-id-not-delivered')
+                continue
+            r = next((x for x in R.transfers if x['key'] == up.key), None)
+            if r and r['outcome'] and not r['outcome'].get('ok'):
+                nt = True
+                cls.append('mpu-failed:' + up.state)
+            else:
+                cls.append('mpu-ok')
+        return cls, nt
+
+
+class C06(E2ECheck):
+    id = 'C06'
+    oracle = staticmethod(oracles.oracle_c06)
+    quick_examples = 32000
+    thorough_examples = 500000
+    profile = {
+        'types': ['download'], 'dsts': ['path'], 'ntransfers': (1, 2),
+        'subs': {'max': 1, 'size': True}, 'stream_scripts': True,
+        'stream_hard_faults': True,
+        'fault_sites': ['fs.open', 'fs.write', 'fs.close', 'fs.rename',
+                        's3.get_object', 's3.head_object', 'cb.on_progress',
+                        'stream.read'],
+        'max_faults': 2, 'cancels': 2,
+        'ends': ['shutdown', 'shutdown', 'shutdown_cancel', 'with_exc'],
+    }
+    rule = ('cases = 1-2 path downloads (destination absent or holding '
+            'previous content; single and ranged) x faults in open/write/'
+            'close/rename and requests x cancels x schedule; oracle checks '
+            'the destination after EVERY file-system mutation (= every crash '
+            'point) and the directory when the future is done; non-trivial ='
+            ' failure or cancel after >=1 byte reached the temp file, or a '
+            'pre-existing destination')
+
+    def classify(self, R):
+        cls = base_classes(R)
+        nt = False
+        for r in R.transfers:
+            wrote = any(k == 'fs.write' and info['path'].startswith(
+                r['fileobj'] + '.') for (_, _, k, info) in R.trace.events)
+            ok = (r['outcome'] or {}).get('ok')
+            pre = r['spec'].get('preexist') is not None
+            cls.append(f'{"ok" if ok else "fail"}:wrote={wrote}:pre={pre}')
+            if (not ok and wrote) or pre:
+                nt = True
+        return cls, nt
+
+
+class C07(E2ECheck):
+    id = 'C07'
+    oracle = staticmethod(oracles.oracle_c07)
+    quick_examples = 32000
+    thorough_examples = 500000
+    profile = {
+        'ntransfers': (1, 3), 'subs': {'max': 1, 'size': True},
+        'body_scripts': True, 'stream_scripts': True,
+        'cancels': 2, 'kbi': True,
+        'ends': ['shutdown', 'shutdown_cancel', 'shutdown_cancel',
+                 'with_exc', 'with_kbi', 'with'],
+    }
+    rule = ('cases = 1-3 transfers x cancellation entry point (future.'
+            'cancel() from a second thread at a drawn step, shutdown(cancel='
+            'True, cancel_msg), exception / KeyboardInterrupt leaving the '
+            'with-block, Ctrl-C while parked in result()/shutdown()) x '
+            'schedule, no injected faults; non-trivial = the cancel landed '
+            'strictly between the first and last event of >=1 transfer')
+
+    def classify(self, R):
+        cls = base_classes(R)
+        cls.append('end=' + str(R.end.get('how')))
+        nt = False
+        for r in R.transfers:
+            i = r['i']
+            steps = [c['step'] for c in R.cancel_log
+                     if c['t'] == i and 'step' in c]
+            if R.end.get('how') in ('shutdown_cancel', 'with_exc',
+                                    'with_kbi'):
+                steps.append(R.end.get('cancel_step', 0))
+            steps += [st for st, _ in R.sched.kbi_delivered]
+            calls = oracles.calls_of(R, r)
+            if calls and steps:
+                b = min(c['begin'] or 0 for c in calls)
+                ann = R.announced.get(i, 1 << 60)
+                if any(b < st < ann for st in steps):
+                    nt = True
+                    cls.append('cancel-mid-transfer')
+        if R.sched.kbi_delivered:
+            cls.append('kbi@' + R.sched.kbi_delivered[0][1])
+        return cls, nt
+
+
+class C08(E2ECheck):
+    id = 'C08'
+    oracle = staticmethod(oracles.oracle_c08)
+    quick_examples = 32000
+    thorough_examples = 500000
+    profile = {
+        'ntransfers': (1, 3),
+        'subs': {'min': 1, 'max': 3, 'size': True, 'raise_done': True},
+        'body_scripts': True, 'stream_scripts': True,
+        'stream_hard_faults': True,
+        'fault_sites': [s for s in ALL_FAULT_SITES if s != 'cb.on_queued'],
+        'max_faults': 1, 'cancels': 2,
+        'ends': ['shutdown', 'shutdown', 'shutdown_cancel', 'with_exc'],
+    }
+    rule = ('cases = 1-3 transfers each with 1-3 recording subscribers '
+            '(some raising in on_done, some supplying the size) x every '
+            'outcome (faults, cancels racing the submission task) x '
+            'schedule; oracle on callback steps vs the fake-S3 call log; '
+            'non-trivial = an outcome other than plain success')
+
+    def classify(self, R):
+        cls = base_classes(R)
+        nt = any(r['outcome'] and not r['outcome'].get('ok')
+                 for r in R.transfers)
+        return cls, nt
+
+
+class C09(E2ECheck):
+    id = 'C09'
+    oracle = staticmethod(oracles.oracle_c09)
+    quick_examples = 32000
+    thorough_examples = 600000
+    profile = {
+        'types': ['upload', 'upload', 'download', 'download', 'copy'],
+        'ntransfers': (1, 2), 'subs': {'min': 1, 'max': 2, 'size': True},
+        'body_scripts': True, 'stream_scripts': True, 'agg': True,
+        'ends': ['shutdown'],
+    }
+    rule = ('cases = uploads/downloads/copies with recording subscribers x '
+            'body scripts (rewinds, signing reads with progress suppressed, '
+            'aws-chunked wrapper) x stream scripts (retryable faults at any '
+            'byte) x scaled aggregation threshold x schedule; oracle = sum '
+            'of bytes_transferred == size on success, running sum within '
+            '[0,size]; non-trivial = >=1 negative callback, or >=2 parts')
+
+    def classify(self, R):
+        cls = base_classes(R)
+        neg = any(k == 'cb.progress' and info['n'] < 0
+                  for (_, _, k, info) in R.trace.events)
+        multi = any(oracles.mode_of(R, r) in ('multipart', 'ranged')
+                    for r in R.transfers)
+        if neg:
+            cls.append('negative-progress')
+        return cls, bool(neg or multi)
+
+
+class C10(E2ECheck):
+    id = 'C10'
+    oracle = staticmethod(oracles.oracle_c10)
+    quick_examples = 24000
+    thorough_examples = 300000
+    profile = {
+        'ntransfers': (2, 6), 'limits': 'ones', 'execs': ['thr'],
+        'subs': {'max': 1, 'size': True}, 'max_thr': 16, 'max_chunk': 8,
+        'ends': ['shutdown'],
+    }
+    rule = ('cases = 2-6 concurrent transfers of mixed types, limits biased '
+            'to 1-2, threaded executor, PCT/walk/preempt schedules; oracle '
+            'at every step from begin/end events and the instrumented '
+            'executors; non-trivial = some limit was reached (count = bound)')
+
+    def classify(self, R):
+        cls = base_classes(R)
+        cfg = R.case['cfg']
+        nt = False
+        pk = getattr(R, 'c10_peak', (0, 0))
+        if pk[0] >= cfg['max_request_concurrency']:
+            nt = True
+            cls.append('request-concurrency-reached')
+        if pk[1] >= cfg['max_submission_concurrency']:
+            nt = True
+            cls.append('submission-concurrency-reached')
+        if len(R.executors) >= 3:
+            for k, key in enumerate(('max_request_queue_size',
+                                     'max_submission_queue_size',
+                                     'max_io_queue_size')):
+                if R.executors[k].max_inflight >= cfg[key]:
+                    nt = True
+                    cls.append(key + '-reached')
+        return cls, nt
+
+
+class C11(E2ECheck):
+    id = 'C11'
+    oracle = staticmethod(oracles.oracle_c11)
+    quick_examples = 24000
+    thorough_examples = 300000
+    profile = {
+        'types': ['upload', 'download'], 'srcs': ['seek', 'nonseek'],
+        'dsts': ['nonseek', 'nonseek', 'special', 'path'],
+        'ntransfers': (1, 4), 'limits': 'ones', 'execs': ['thr'],
+        'subs': {'max': 1, 'size': True}, 'max_thr': 10, 'max_chunk': 6,
+        'stream_scripts': True, 'ends': ['shutdown'],
+    }
+    rule = ('cases = stream uploads (seekable / non-seekable) and '
+            'non-seekable ranged downloads sharing a manager, in-memory '
+            'limits 1-3, PCT schedules; oracle at every step: bytes read '
+            'from user streams awaiting a finished part <= (U+S)*max(chunk,'
+            'threshold), download window <= D per download and in sum, '
+            'pending writes <= max_io_queue_size x io_chunksize; '
+            'non-trivial = a bound was reached within one buffer/part')
+
+    def classify(self, R):
+        cls = base_classes(R)
+        return cls, bool(getattr(R, 'c11_reached', False))
+
+
+class C18(E2ECheck):
+    id = 'C18'
+    oracle = staticmethod(oracles.oracle_c18)
+    quick_examples = 20000
+    thorough_examples = 250000
+    profile = {
+        'ntransfers': (2, 4), 'subs': {'max': 1, 'size': True},
+        'body_scripts': True, 'stream_scripts': True,
+        'stream_hard_faults': True,
+        'fault_sites': ALL_FAULT_SITES, 'max_faults': 2, 'cancels': 2,
+        'fresh': True,
+        'ends': ['shutdown', 'shutdown', 'with', 'shutdown_cancel',
+                 'with_exc'],
+    }
+    rule = ('cases = 2-4 concurrent transfers of different types on one '
+            'manager, a drawn subset failing (fault plan) or cancelled, then '
+            'a fresh transfer and/or shutdown / with-exit, x schedule; '
+            'oracle = per-transfer isolation (untouched transfers succeed '
+            'with exact bytes), nothing happens after shutdown returns, '
+            'every semaphore back at capacity; non-trivial = >=1 transfer '
+            'failed or was cancelled while another succeeded')
+
+    def classify(self, R):
+        cls = base_classes(R)
+        bad = [r for r in R.transfers if r['outcome']
+               and not r['outcome'].get('ok')]
+        good = [r for r in R.transfers if r['outcome']
+                and r['outcome'].get('ok')]
+        if getattr(R, 'fresh', None):
+            cls.append('fresh')
+        return cls, bool(bad and good)
